@@ -11,7 +11,7 @@ import random
 from coqemit import cbool, clist, cnat, copt, cpair, cstr, cstrlist
 
 ID = "C19"
-FACTS = ["Doc"]
+FACTS = ["Doc", "DocSrc"]
 COQ_HEADER = "From SPV Require Import CorrDefs.CorrC19."
 COQ_CASE_TYPE = "case"
 RULE = ("modules of 1-3 dataclasses written to real files (linear inheritance chains; subclasses re-declare some fields); "
